@@ -326,6 +326,12 @@ func TestC15Inbound(t *testing.T) {
 		// a slow producer: the application has a message open, has written a few bytes of it and
 		// then produces nothing more while the Pings arrive
 		slowProducer := rapid.IntRange(0, 2).Draw(rt, "slowProducer") == 0
+		// what the idle writer has written so far: a few bytes (all of it still in the write buffer) or a
+		// chunk around / beyond the size of that buffer (its head is on the wire, its tail is not)
+		slowFirst := 7
+		if slowProducer {
+			slowFirst = rapid.SampledFrom([]int{7, 7, 100, 4081, 4089, 4092, 4096, 4097, 5000, 8192, 9000, 20000}).Draw(rt, "slowProducerFirstWrite")
+		}
 		var frames []ref.Frame
 		var msgs []inMsg
 		pingLen := func(k int) int { return (caseNo*7 + k*13) % 126 }
@@ -383,7 +389,7 @@ func TestC15Inbound(t *testing.T) {
 			wdone := e.Call(func() {
 				if slowProducer {
 					if w, err := lc.C.Writer(context.Background(), websocket.MessageText); err == nil {
-						w.Write([]byte("hello, "))
+						w.Write(expand(ckText, uint64(caseNo), slowFirst))
 					}
 					return
 				}
@@ -479,9 +485,9 @@ func TestC15Inbound(t *testing.T) {
 				rec.Class(fmt.Sprintf("ping-len-seen:%03d", len(f.Payload)), 1)
 			}
 		}
-		rec.Case(inside || closeRead, fmt.Sprintf("in|%s|%v|%v|%s|%d", mode.Name, closeRead, slowProducer, lens, len(frames)), "inbound", fmt.Sprintf("inbound-closeread:%v", closeRead), fmt.Sprintf("inbound-application-writer-idle-with-a-message-open:%v", slowProducer))
+		rec.Case(inside || closeRead, fmt.Sprintf("in|%s|%v|%v|%s|%d", mode.Name, closeRead, slowProducer, lens, len(frames)), "inbound", fmt.Sprintf("inbound-closeread:%v", closeRead), fmt.Sprintf("inbound-application-writer-idle-with-a-message-open:%v", slowProducer), map[bool]string{true: "inbound-idle-writer-wrote-more-than-the-write-buffer-holds"}[slowProducer && slowFirst > 4096])
 		if fail != "" {
-			rt.Fatalf("C15 inbound mode=%s closeRead=%v slowProducer=%v: %s", mode.Name, closeRead, slowProducer, fail)
+			rt.Fatalf("C15 inbound mode=%s closeRead=%v slowProducer=%v/%d: %s", mode.Name, closeRead, slowProducer, slowFirst, fail)
 		}
 	})
 }
